@@ -206,9 +206,12 @@ def joinWith (sep : Text) : List Text → Text
 
 /-- `QuantityVector.prettified()` (units.py:143-146): names of the base units with a non-zero
     exponent, `name^exp` unless the exponent is 1, separated by one space. -/
+def unitParts (names : List Text) (dim : List Int) : List Text :=
+  (List.zip dim names).filterMap fun (p : Int × Text) =>
+    if p.1 = 0 then none else some (if p.1 = 1 then p.2 else p.2 ++ '^' :: intText p.1)
+
 def prettified (names : List Text) (dim : List Int) : Text :=
-  joinWith [' '] ((List.zip dim names).filterMap fun (p : Int × Text) =>
-    if p.1 = 0 then none else some (if p.1 = 1 then p.2 else p.2 ++ '^' :: intText p.1))
+  joinWith [' '] (unitParts names dim)
 
 /-- `approximate_frac(f)` (interpret.py:460-467). -/
 def approximateFrac (N : Int) (q : Rat) : Except Err Text :=
@@ -400,6 +403,45 @@ def readEntryNum (t : Text) : Option AExp :=
     (match readSigned t with
      | some (n, []) => some n
      | _ => none)
+
+/-- `[-]digits` at the start of a text: the integer and the rest -/
+def readIntPrefix (t : Text) : Option (Int × Text) :=
+  let (neg, body) := splitSign t
+  let (v, k, rest) := readDigits body 0 0
+  if k = 0 then none else some (if neg then -(v : Int) else (v : Int), rest)
+
+/-- after a unit name: `^exponent`, or nothing (exponent 1) -/
+def readUnitExp (r : Text) : Option (Int × Text) :=
+  match r with
+  | '^' :: r' => readIntPrefix r'
+  | _ => some (1, r)
+
+/-- after a unit: the end, or one space followed by more -/
+def skipSpace (r : Text) : Option Text :=
+  match r with
+  | [] => some []
+  | ' ' :: c :: cs => some (c :: cs)
+  | _ => none
+
+/-- Read a unit text back into the exponent vector over `names` (in base order): each base
+    unit either heads the remaining text as a whole word — optionally followed by `^exponent` —
+    or is absent (exponent 0); words are separated by single spaces. -/
+def readDim : List Text → Text → Option (List Int)
+  | [], [] => some []
+  | [], _ :: _ => none
+  | nm :: nms, t =>
+    let w := t.takeWhile Char.isAlpha
+    let r := t.dropWhile Char.isAlpha
+    if w = nm ∧ w ≠ [] then
+      match readUnitExp r with
+      | none => none
+      | some (e, r2) =>
+        if e = 0 then none
+        else
+          match skipSpace r2 with
+          | none => none
+          | some r4 => (readDim nms r4).map (e :: ·)
+    else (readDim nms t).map ((0 : Int) :: ·)
 
 /-- number of significant digits shown: digits of the mantissa from the first non-zero one on -/
 def sigCount (t : Text) : Nat :=
